@@ -1,6 +1,7 @@
 package snowflake
 
 import (
+	"encoding/binary"
 	"time"
 
 	symx "github.com/pinealctx/neptune/zzsymx"
@@ -79,5 +80,76 @@ func VerifH_IDParseEx() {
 	symx.Assert(n2 == node && s2 == step, "same node and step")
 	symx.Assert(t.Unix()*SDivMs+int64(t.Nanosecond())/MsDivNs == ms, "the instant is the id's millisecond timestamp")
 	symx.Assert(int64(t.Nanosecond())%MsDivNs == 0, "whole milliseconds")
+	symx.Reach("end")
+}
+
+// verifFoldZone: a time zone with daylight saving built from hand-written TZif data (the tz database is not
+// read): UTC-4 "EDT" from 2021-03-14 07:00 UTC, back to UTC-5 "EST" at 2021-11-07 06:00 UTC - the wall
+// clock hour 01:00-02:00 of that day occurs twice.
+func verifFoldZone() *time.Location {
+	b := []byte("TZif")
+	b = append(b, 0)
+	b = append(b, make([]byte, 15)...)
+	for _, n := range []uint32{0, 0, 0, 2, 2, 8} {
+		b = binary.BigEndian.AppendUint32(b, n)
+	}
+	b = binary.BigEndian.AppendUint32(b, uint32(1615705200))
+	b = binary.BigEndian.AppendUint32(b, uint32(1636264800))
+	b = append(b, 0, 1)
+	b = binary.BigEndian.AppendUint32(b, uint32(0xffffffff-14400+1))
+	b = append(b, 1, 0)
+	b = binary.BigEndian.AppendUint32(b, uint32(0xffffffff-18000+1))
+	b = append(b, 0, 4)
+	b = append(b, "EDT\x00EST\x00"...)
+	// (the loader looks at the current time to pre-select a zone period: any fixed reading will do)
+	symx.Stub("time.now", func() (int64, int32, int64) { return 1700000000, 0, 0 })
+	loc, err := time.LoadLocationFromTZData("Fold/Zone", b)
+	symx.Assert(err == nil && loc != nil, "the hand-written zone loads")
+	return loc
+}
+
+// C07/H2b: the time ranges depend on the instants only, not on the Location the time.Time values carry:
+// begin and end in UTC, in a fixed zone, or in a zone with daylight saving, seconds in a 1024 s window
+// around the end of daylight saving (the repeated wall-clock hour included), against an arbitrary id.
+func VerifH_TimeRangesInZones() {
+	timeShift := verifLayout()
+	var timeMax int64 = (1 << (63 - timeShift)) - 1
+	var loc *time.Location
+	switch symx.Param("zone", 2) {
+	case 0:
+		loc = time.UTC
+	case 1:
+		loc = time.FixedZone("CST", 8*3600)
+	default:
+		loc = verifFoldZone()
+	}
+	const fallBack = 1636264800 // 2021-11-07 06:00:00 UTC
+	bsec := fallBack - 512 + int64(symx.Uint16("begin.off")&1023)
+	esec := fallBack - 512 + int64(symx.Uint16("end.off")&1023)
+	symx.Assume(bsec <= esec)
+	bns, ens := int64(symx.Uint16("begin.ms")%1000)*1000000, int64(symx.Uint16("end.ms")%1000)*1000000
+	begin, end := time.Unix(bsec, bns).In(loc), time.Unix(esec, ens).In(loc)
+	beginMs, endMs := bsec*SDivMs-_epoch, esec*SDivMs-_epoch
+	symx.Assume(beginMs >= 0 && endMs <= timeMax)
+	lo, hi := TimeBetweenID(begin, end)
+	id := symx.Int64("id")
+	symx.Assume(id >= 0)
+	ts, _, _ := IDFields(id)
+	in := lo <= id && id <= hi
+	if beginMs <= ts && ts <= endMs {
+		symx.Assert(in, "every id stamped between the second-truncated endpoints is inside")
+	}
+	if ts < beginMs || ts >= endMs+SDivMs {
+		symx.Assert(!in, "no id stamped before the first or after the last endpoint's second is inside")
+	}
+	symx.Assert(lo <= hi && lo >= 0, "interval well formed")
+	mn, mx := TimeIDRange(begin)
+	in1 := mn <= id && id <= mx
+	if ts == beginMs {
+		symx.Assert(in1, "TimeIDRange contains the ids stamped at its second")
+	}
+	if ts < beginMs || ts >= beginMs+SDivMs {
+		symx.Assert(!in1, "TimeIDRange excludes other seconds")
+	}
 	symx.Reach("end")
 }
